@@ -351,6 +351,8 @@ def random_batch(seed, n, flags="default", pats=None, maxlen=40, ood_share=0.25,
     for i in range(n):
         src = gen_program(rng, rng.randint(3, maxlen), in_domain=rng.random() >= ood_share)
         inc = {k: (True if flags == "default" else rng.random() < 0.6) for k in FLAG_KINDS}
+        if flags != "default" and i % 8 == 7:
+            inc = {k: False for k in FLAG_KINDS}          # everything off at once
         p = pats if pats is not None else {"f": rng.random() < 0.5, "m": rng.random() < 0.5, "x": rng.random() < 0.5}
         try:
             ev = record(src, agg.make_settings(inc, p))
